@@ -1065,7 +1065,8 @@ def run(ctx):
             for gi, group in enumerate(group_records(recs)):
                 if stride > 1 and (gi + ctx.seed) % stride:
                     continue            # sampled, not exhausted
-                rp.run_group(group, nval)
+                # quick tier: one valuation for the flow scenarios (each already runs two elements over three values)
+                rp.run_group(group, 1 if (not ctx.thorough and len(group[0]["flow"]) > 1) else nval)
                 rec = group[0]
                 ctx.case([rec["call"], rec["flow"], rec["ctx2"]],
                          nontrivial=bool(cl.items(rec["ctx"])) or rec["call"]["op"] in ("s2d", "update"))
